@@ -337,3 +337,88 @@ func isGeneratedClosure(a *genAnchors, info *types.Info, lit *ast.FuncLit) bool 
 	}
 	return a.isStack(sig.Params().At(0).Type()) && isErrorType(sig.Results().At(1).Type())
 }
+
+// ---------------------------------------------------------------------------
+// Field roles: the rules talk about fields of private structs (the stack's
+// storage/offset/size, the generator context's argument and closure lists).
+// Their names are private and may be renamed; the roles are derived from what
+// the code does with them.
+
+type fieldRoles struct {
+	am, cm              string // GeneratorContext: names addressed on the stack / in the closure context
+	offs, size, storage string // Stack
+	problems            []string
+}
+
+func (c *Ctx) fieldRoles(a *genAnchors) *fieldRoles {
+	r := &fieldRoles{am: "am", cm: "cm", offs: "offs", size: "size", storage: "storage"}
+	info := a.fg.TypesInfo
+	// Stack: storage = the pointer field, size = the field Push increments, offs = the other int field
+	if st, ok := a.stackType.Type().Underlying().(*types.Struct); ok {
+		var ints []string
+		ptr := ""
+		for i := 0; i < st.NumFields(); i++ {
+			f := st.Field(i)
+			if _, isPtr := f.Type().Underlying().(*types.Pointer); isPtr {
+				ptr = f.Name()
+			} else if bt, ok := f.Type().Underlying().(*types.Basic); ok && bt.Info()&types.IsInteger != 0 {
+				ints = append(ints, f.Name())
+			}
+		}
+		size := ""
+		if fd := c.FuncDecl(a.fg, "Stack", "Push"); fd != nil {
+			ast.Inspect(fd.Body, func(x ast.Node) bool {
+				if inc, ok := x.(*ast.IncDecStmt); ok && inc.Tok == token.INC {
+					if sel, ok := ast.Unparen(inc.X).(*ast.SelectorExpr); ok {
+						size = sel.Sel.Name
+					}
+				}
+				return true
+			})
+		}
+		if ptr != "" && size != "" && len(ints) == 2 && (ints[0] == size || ints[1] == size) {
+			r.storage, r.size = ptr, size
+			r.offs = ints[0]
+			if r.offs == size {
+				r.offs = ints[1]
+			}
+		} else {
+			r.problems = append(r.problems, "the roles of the fields of Stack could not be derived (pointer field, size incremented by Push, offset)")
+		}
+	}
+	// GeneratorContext: am = the list addLocalVar extends, cm = the one it copies
+	if fd := c.FuncDecl(a.fg, "GeneratorContext", "addLocalVar"); fd != nil && fd.Recv != nil && len(fd.Recv.List[0].Names) == 1 {
+		recv := info.Defs[fd.Recv.List[0].Names[0]]
+		var extended, copied []string
+		ast.Inspect(fd.Body, func(x ast.Node) bool {
+			cl, ok := x.(*ast.CompositeLit)
+			if !ok || !a.isCtx(info.TypeOf(cl)) || len(cl.Elts) < 2 {
+				return true
+			}
+			for _, el := range cl.Elts {
+				kv, ok := el.(*ast.KeyValueExpr)
+				if !ok {
+					continue
+				}
+				k, ok := kv.Key.(*ast.Ident)
+				if !ok {
+					continue
+				}
+				if sel, ok := ast.Unparen(kv.Value).(*ast.SelectorExpr); ok && sel.Sel.Name == k.Name {
+					if id, ok := ast.Unparen(sel.X).(*ast.Ident); ok && info.ObjectOf(id) == recv {
+						copied = append(copied, k.Name)
+						continue
+					}
+				}
+				extended = append(extended, k.Name)
+			}
+			return true
+		})
+		if len(extended) == 1 && len(copied) == 1 {
+			r.am, r.cm = extended[0], copied[0]
+		} else {
+			r.problems = append(r.problems, "the roles of the fields of GeneratorContext could not be derived from addLocalVar (one list extended, one copied)")
+		}
+	}
+	return r
+}
